@@ -1,6 +1,7 @@
 import YakModel.UnitCheck
 import YakModel.SeqCheck
 import YakModel.SessCheck
+import YakModel.EpochCheck
 
 open Yak
 
@@ -88,6 +89,39 @@ partial def runSess (h : IO.FS.Stream) (n : Nat) : IO UInt32 := do
   IO.println s!"checked {lineNo} diffs {bad}"
   return (if bad == 0 then 0 else 1)
 
+/-- reclamation-protocol monitor: evaluates the proved invariants of Proto/Epoch on real traces -/
+partial def runEpoch (h : IO.FS.Stream) : IO UInt32 := do
+  let mut st : EpochCheck.St := {}
+  let mut runs := 0
+  let mut bad := 0
+  let mut checks := 0
+  let mut retired := 0
+  let mut reclaimed := 0
+  let mut incs := 0
+  let mut lineNo := 0
+  let mut dead := false
+  repeat
+    let line ← h.getLine
+    if line.isEmpty then break
+    let l := line.trimAscii.toString
+    lineNo := lineNo + 1
+    if l.startsWith "RUN " then
+      checks := checks + st.checks; retired := retired + st.retired; reclaimed := reclaimed + st.reclaimed; incs := incs + st.incs
+      st := {}
+      runs := runs + 1
+      dead := false
+    else if (l.startsWith "T " || l.startsWith "EPOCH0") && !dead then
+      match EpochCheck.step st l with
+      | .ok st' => st := st'
+      | .error e =>
+        bad := bad + 1
+        dead := true
+        if bad ≤ 5 then IO.println s!"DIFF class epochmonitor run {runs} line {lineNo}: {l} :: {e}"
+  checks := checks + st.checks; retired := retired + st.retired; reclaimed := reclaimed + st.reclaimed; incs := incs + st.incs
+  IO.println s!"STATS runs={runs} invariant_checks={checks} retires={retired} reclaims={reclaimed} epoch_increments={incs}"
+  IO.println s!"checked {lineNo} diffs {bad}"
+  return (if bad == 0 then 0 else 1)
+
 def cfgOf : String → Tree.Cfg
   | "d2" => { fixD2 := false }
   | "d5" => { fixD5 := false }
@@ -101,6 +135,7 @@ def main (args : List String) : IO UInt32 := do
   | "seq" :: c :: focus => runSeq stdin (cfgOf c) focus
   | ["seq"] => runSeq stdin {} []
   | ["sess", n] => runSess stdin (n.toNat?.getD 8)
+  | ["epoch"] => runEpoch stdin
   | _ => do
     IO.eprintln "usage: yakmodel unit | seq [fixed|d2|d5|d2d5] [focus classes…] < transcript"
     return 2
